@@ -353,3 +353,59 @@ def tasks(tier, seed=0):
         ts.append(("mstep_task", dict(kind="logistic", kw=cfgs[0][1], burn_in=True, n_ind=3, n_vis=2)))
         ts.append(("mstep_task", dict(kind="logistic", kw=cfgs[1][1], burn_in=False, n_ind=3, n_vis=2)))
     return ts
+
+
+def mixture_probs_task(n_ind, n_clusters):
+    """mixture probabilities = mean cluster responsibilities, summing to one (real compute_probs_from_state on symbolic per-cluster regularities)"""
+    task = f"mixture-probs[n={n_ind},clusters={n_clusters}]"
+
+    def body():
+        from leaspy.models.utilities import compute_probs_from_state
+
+        rec = Recorder(PROP, task, [compute_probs_from_state])
+        st.new_context("R")
+        r = st.sym("nll_regul", (n_ind, n_clusters))
+        # the clamp at -100 is inactive in the modelled range (documented numerical guard): assume moderate values
+        for x in r.sym.reshape(-1):
+            T.assume(z3.And(x > -50, x < 50))
+        probs = compute_probs_from_state({"nll_regul_ind_sum_ind": WeightedTensor(r)})
+        P = st.to_terms(probs)
+
+        def rp(model):
+            return f"""
+from leaspy.models.utilities import compute_probs_from_state
+from leaspy.utils.weighted_tensor import WeightedTensor
+r = {tensor_literal(r, model)}
+p = compute_probs_from_state({{'nll_regul_ind_sum_ind': WeightedTensor(r)}})
+ref = torch.softmax(-r, dim=1).mean(dim=0)
+print(p, ref); sys.exit(0 if (torch.allclose(p, ref, atol=1e-6) and abs(float(p.sum()) - 1) < 1e-5) else 1)
+"""
+
+        rec.obligations += 1
+        if P.shape == (n_clusters,):
+            rec.discharged += 1
+        else:
+            rec.violation_from_script("shape", "C04:mixture-probs-shape", rp(_Zero()), f"probs shape {P.shape}")
+            return rec.result()
+        E = [[T.t_exp(T.mk_neg(r.sym[i, c])) for c in range(n_clusters)] for i in range(n_ind)]
+        for c in range(n_clusters):
+            exp = sum((E[i][c] / sum(E[i], T.real_val(0)) for i in range(n_ind)), T.real_val(0)) / n_ind
+            rec.prove(f"pi[{c}]", P[c] == exp, replay=rp, key="C04:mixture-probs", timeout_ms=60000, what="mixture probability is not the mean cluster responsibility")
+        rec.prove("sum-to-one", sum(P, T.real_val(0)) == 1, replay=rp, key="C04:mixture-probs", timeout_ms=60000, what="mixture probabilities do not sum to one")
+        rec.sample({"individuals": n_ind, "clusters": n_clusters})
+        rec.end_path()
+        return rec.result()
+
+    return guarded(PROP, task, body)
+
+
+class _Zero:
+    def eval(self, t, model_completion=True):
+        return z3.RealVal(0) if t.sort() == z3.RealSort() else z3.BoolVal(True)
+
+
+_tasks_c04 = tasks
+
+
+def tasks(tier, seed=0):
+    return _tasks_c04(tier, seed) + [("mixture_probs_task", dict(n_ind=2, n_clusters=2))] + ([("mixture_probs_task", dict(n_ind=3, n_clusters=2)), ("mixture_probs_task", dict(n_ind=2, n_clusters=3))] if tier == "thorough" else [])
